@@ -216,7 +216,7 @@ fn ep_after(c: &Case) -> Option<u8> {
 }
 
 /// XOR of the (indicator) key components of a position
-fn spec_key(mb: &sym::Mailbox, rights: [[bool; 2]; 2], ep: Option<u8>, black_to_move: bool) -> u64 {
+pub fn spec_key(mb: &sym::Mailbox, rights: [[bool; 2]; 2], ep: Option<u8>, black_to_move: bool) -> u64 {
     let mut h = 0u64;
     let mut r: u8 = 0;
     while r < 8 {
@@ -543,6 +543,43 @@ fn vk_c02_null_make_undo() {
     assert!(g.zobrist == pre.zobrist && g.history.len() == 0);
     assert!(g.incremental_eval.phase_value == pre.incremental_eval.phase_value
         && g.incremental_eval.piece_square_tables == pre.incremental_eval.piece_square_tables);
+}
+
+pub static mut BASE_HASH_CALLS: u8 = 0;
+pub static mut BASE_INIT_CALLS: u8 = 0;
+fn hash_contract(game: &Game) -> ZobristHash {
+    unsafe { BASE_HASH_CALLS += 1; }
+    // "the key computed from scratch for this game" (C03.hash_additive): here a marker derived from observable fields
+    ZobristHash(0xABCD_0000 ^ game.halfmove_clock as u64 ^ ((game.player == Player::Black) as u64) << 40)
+}
+fn init_contract(board: &crate::chess::board::Board) -> IncrementalEvalFields {
+    unsafe { BASE_INIT_CALLS += 1; }
+    IncrementalEvalFields { phase_value: 77, piece_square_tables: PhasedEval::new(board.occupancy().count() as i16, -5) }
+}
+
+//@ obligation: C03.base.from_state
+//@ property: C03 C15
+//@ domain: complete
+//@ functions: chess/game.rs::Game::from_state
+//@ timeout: 900
+//@ mem_gb: 4
+//@ note: base case of both inductions: the constructor used for every FEN stores the arguments unchanged, an empty history, key = zobrist::hash(of the finished game) and accumulators = IncrementalEvalFields::init(board) (both callees replaced by contract functions)
+#[kani::proof]
+#[kani::unwind(4)]
+#[kani::stub(crate::chess::zobrist::hash, hash_contract)]
+#[kani::stub(crate::engine::eval::IncrementalEvalFields::init, init_contract)]
+fn vk_c03_base_from_state() {
+    let mb = sym::any_mailbox();
+    let b = sym::board_of(&mb);
+    let t = symgame::game_with_board(sym::empty_board());
+    let g = Game::from_state(b.clone(), t.player, t.castle_rights.clone(), t.en_passant_target, t.halfmove_clock, t.plies);
+    kani::cover!(true);
+    assert!(sym::boards_equal(&g.board, &b));
+    assert!(g.player == t.player && g.en_passant_target == t.en_passant_target && g.halfmove_clock == t.halfmove_clock && g.plies == t.plies);
+    assert!(rights_arr(&g.castle_rights) == rights_arr(&t.castle_rights) && g.history.len() == 0);
+    assert!(g.zobrist.0 == 0xABCD_0000 ^ t.halfmove_clock as u64 ^ ((t.player == Player::Black) as u64) << 40);
+    assert!(g.incremental_eval.phase_value == 77 && g.incremental_eval.piece_square_tables == PhasedEval::new(b.occupancy().count() as i16, -5));
+    assert!(unsafe { BASE_HASH_CALLS == 1 && BASE_INIT_CALLS == 1 });
 }
 
 //@ obligation: C02.canary.make
